@@ -2,7 +2,6 @@ package harness
 
 import (
 	"context"
-	"errors"
 	"fmt"
 	"os"
 	"path/filepath"
@@ -166,7 +165,7 @@ func hooksC15() Hooks {
 		default:
 			return
 		}
-		interrupted := errors.Is(err, errBackoffStop)
+		interrupted := interruptedByHarness(err)
 		if err != nil && !interrupted {
 			return // reported through Strict
 		}
@@ -277,7 +276,7 @@ func hooksC16() Hooks {
 		default:
 			return
 		}
-		interrupted := errors.Is(err, errBackoffStop)
+		interrupted := interruptedByHarness(err)
 		if err != nil && !interrupted {
 			return
 		}
